@@ -229,6 +229,8 @@ func (fc *FnCtx) binop(x *ssa.BinOp) Val {
 		switch a.K {
 		case KStr:
 			eq = fc.strEq(a, b)
+			fc.noteCmpString(a)
+			fc.noteCmpString(b)
 		case KIface:
 			if b.K == KIface {
 				// equal dynamic type and payload (payloads of boxed non-scalars compare by box identity: over-approximation flagged)
@@ -263,8 +265,7 @@ func (fc *FnCtx) binop(x *ssa.BinOp) Val {
 	case token.LSS, token.LEQ, token.GTR, token.GEQ:
 		op := map[token.Token]string{token.LSS: "<", token.LEQ: "<=", token.GTR: ">", token.GEQ: ">="}[x.Op]
 		if a.K == KStr {
-			fc.declareFun("strcmp", fmt.Sprintf("(%s Int Int %s Int Int) Int", SArr, SArr))
-			return boolVal(fmt.Sprintf("(%s (strcmp %s %s %s %s %s %s) 0)", op, a.C[0], a.C[1], a.C[2], b.C[0], b.C[1], b.C[2]))
+			return boolVal(fmt.Sprintf("(%s %s 0)", op, fc.strCmp(a, b)))
 		}
 		if isFloat(xt) {
 			return fc.freshVal(x.Name(), t)
@@ -824,6 +825,15 @@ func (fc *FnCtx) doReturn(x *ssa.Return) {
 		f := fc.evalBool(cl.E, env)
 		fc.oblige("post", cl.Label, f, x.Pos(), cl)
 	}
+	// exit clauses may mention local variables; they are checked at every return where those are defined
+	for i := range fc.con.Exits {
+		cl := &fc.con.Exits[i]
+		f, ok := fc.tryEvalBool(cl.E, env)
+		if !ok {
+			continue
+		}
+		fc.oblige("exit", cl.Label, f, x.Pos(), cl)
+	}
 }
 
 func (fc *FnCtx) returnEnv(results []ssa.Value) *Env {
@@ -842,7 +852,13 @@ func (fc *FnCtx) returnEnv(results []ssa.Value) *Env {
 			if name == "result" && len(results) == 1 {
 				return fc.val(results[0]), true
 			}
-			return fc.paramLookup(name)
+			if v, ok := fc.paramLookup(name); ok {
+				return v, true
+			}
+			if fc.allowLocals {
+				return fc.resolveVar(name, fc.curBlock, fc.curIdx, &fc.cur)
+			}
+			return Val{}, false
 		}}
 }
 
@@ -897,4 +913,20 @@ func (fc *FnCtx) pointEnv(b *ssa.BasicBlock) *Env {
 		lookup: func(name string) (Val, bool) {
 			return fc.resolveVar(name, b, fc.curIdx, &fc.cur)
 		}}
+}
+
+// tryEvalBool evaluates an exit clause; ok is false when it mentions a local that is not defined here.
+func (fc *FnCtx) tryEvalBool(e Expr, env *Env) (f string, ok bool) {
+	fc.allowLocals = true
+	defer func() {
+		fc.allowLocals = false
+		if r := recover(); r != nil {
+			if ve, isVC := r.(vcError); isVC && strings.Contains(ve.msg, "unknown identifier") {
+				ok = false
+				return
+			}
+			panic(r)
+		}
+	}()
+	return fc.evalBool(e, env), true
 }
